@@ -173,10 +173,10 @@ func pmt14PidCases(s pmt14Shape) []pidCase {
 	for i := len(all) - 1; i >= 0; i-- {
 		rev = append(rev, all[i])
 	}
-	cs := []pidCase{{"empty list", nil}, {"all streams", all}, {"all streams in reverse order", rev}, {"only the PMT PID", []int{s.pid}}, {"PAT and PMT PID", []int{0, s.pid}}, {"one absent PID", []int{0x1ABC}}}
+	cs := []pidCase{{"empty list", nil}, {"all streams", all}, {"all streams in reverse order", rev}, {"only the PMT PID", []int{s.pid}}, {"PAT and PMT PID", []int{0, s.pid}}, {"one absent PID", []int{0x1ABC}}, {"one absent PID twice", []int{0x1ABC, 0x1ABC}}, {"two absent PIDs, one repeated", []int{0x1ABC, 0x1ABD, 0x1ABC}}}
 	if len(all) > 0 {
 		cs = append(cs, pidCase{"first stream", first}, pidCase{"last stream", last}, pidCase{"last stream twice", append(append([]int(nil), last...), last...)},
-			pidCase{"first stream and an absent PID", append(append([]int(nil), first...), 0x1ABC)}, pidCase{"first stream, PAT PID, absent PID", []int{first[0], 0, 0x1ABC}})
+			pidCase{"first stream and an absent PID", append(append([]int(nil), first...), 0x1ABC)}, pidCase{"first stream, PAT PID, absent PID", []int{first[0], 0, 0x1ABC}}, pidCase{"first stream and an absent PID twice", []int{first[0], 0x1ABC, 0x1ABC}})
 	}
 	if len(all) > 2 {
 		cs = append(cs, pidCase{"first and last stream", []int{all[0], all[len(all)-1]}}, pidCase{"middle stream", []int{all[1]}})
